@@ -64,6 +64,8 @@ def jobs(tier, seed):
     add(fmt='rwms20', reps=['r0'], nrec=[6], first=[1], step=[1], truncate=0, p=dict(nrw=2, nfct=1, nsrc=1))
     add(fmt='qtop', reps=['r0'], nrec=[7], first=[1], step=[1], truncate=0, p=dict(nn=1, tmax=2, index_aim=0))
     add(fmt='ms5', reps=['r0', 'r1'], nrec=[7, 5], first=[1, 1], step=[1, 1], truncate=0, p=dict(tmax=1, corr='g1'))
+    add(fmt='sfqcd', reps=['r0'], nrec=[7], first=[1], step=[1], truncate=0, trunc_from=5, p=dict(ncs=1, tmax=1, index_aim=0))
+    add(fmt='sfqcd', reps=['r0'], nrec=[6], first=[1], step=[1], truncate=0, trunc_from=5, p=dict(ncs=1, tmax=2, index_aim=1, zeuthen=True))
     if tier == 'thorough':
         add(fmt='rwms16', reps=['r0', 'r1', 'r2'], nrec=[5, 8, 5], first=[1, 1, 1], step=[1, 1, 1], truncate=1, p=dict(nrw=2, nfct=1, nsrc=2))
         add(fmt='qtop', reps=['r0'], nrec=[9], first=[1], step=[1], truncate=0, p=dict(nn=2, tmax=3, index_aim=2))
@@ -90,7 +92,7 @@ META = dict(
                 'for reads <= 16 bytes, one class otherwise - justified by an AST scan of the current source showing that read results only flow into struct.unpack, len(t) < 4 and truthiness). On every path the outcome '
                 'must be an exception or exactly the observables of the complete records preceding the cut (the path must determine their number; all of them must be present; never fewer than five).',
     bounds='1-2 (thorough 3) replicas, the truncated file holds 5-9 records; record layouts with 1-2 factors / sources / flow times; all truncation lengths 0..len-1 are covered by the path partition.',
-    outside=['truncated json.gz / xml.gz / csv.gz exports (gzip, rapidjson, lxml, pandas decide): not applicable', 'truncated sfcf text files', 'sfqcd flow variant', 'real file system semantics beyond short reads at end of file'],
+    outside=['truncated json.gz / xml.gz / csv.gz exports (gzip, rapidjson, lxml, pandas decide): not applicable', 'truncated sfcf text files', 'real file system semantics beyond short reads at end of file'],
     stubs=['typed-buffer file model with symbolic length', 'numpy shim', 'exp uninterpreted'],
     assumptions=[],
 )
